@@ -109,7 +109,7 @@ theorem decode_of_matches (file : Array UInt8) (nw : NodeWriter) (c : Nat) (D : 
       | nil => simp [LeafLog] at hl
       | cons r recs =>
         simp only [Matches, ChunkFor] at hm
-        obtain ⟨⟨m1, m2, m3, m4⟩, mrest⟩ := hm
+        obtain ⟨⟨m1, m2, m3, m4, _, _⟩, mrest⟩ := hm
         simp only [LeafLog] at hl
         obtain ⟨⟨l1, l2, l3, l4, l5, off, l6, l7, l8⟩, lrest⟩ := hl
         cases hc with
